@@ -24,7 +24,7 @@ LONG = b"1234567890123456789012345678901234567890"
 CONTENTS_FULL = [b"x", b"", b"- y", b"-- y", b"++ y", b"@@ q", b"\\ w", b"\tt\tu",
                  b"\xc3\xa9\xe6\xbc\xa2 z", b"1234567890123456789012345678901234567890", b"x ",
                  # a line that looks like a submodule commit line; text starting with a combining character
-                 b"Subproject commit zz", b"\xcc\x81x\xe0\xa4\xbe"]
+                 b"Subproject commit zz", b"Subproject commit 0123456789abcdef0123456789abcdef01234567", b"\xcc\x81x\xe0\xa4\xbe"]
 
 
 def expected_text(line, n_parents, ocfg, in_conflict=False):
